@@ -12,6 +12,7 @@ import (
 	"fmt"
 	"io"
 	"net"
+	"net/url"
 	"os"
 	"os/signal"
 	"strings"
@@ -20,6 +21,10 @@ import (
 	"testing"
 	"testing/synctest"
 	"time"
+
+	pt "gitlab.torproject.org/tpo/anti-censorship/pluggable-transports/goptlib"
+
+	"gitlab.com/yawning/obfs4.git/transports/base"
 )
 
 // ---------------------------------------------------------------- relay
@@ -687,12 +692,225 @@ func group(seq string, mask int) []string {
 	return g
 }
 
+// ---------------------------------------------------------------- connection handlers
+//
+// The program's own clientHandler / serverHandler are run against stub
+// factories (the transport is not the subject here) so that every way a
+// handler can end is driven: SOCKS handshake fails, arguments refused,
+// outgoing connection fails, transport handshake fails at once or after a
+// while, ORPort unreachable, or a relay that runs until one side ends.  The
+// main goroutine does what main() does.  Judged: a graceful shutdown request
+// completes once every handler that was started has finished - and not before.
+
+type stubTransport struct{}
+
+func (stubTransport) Name() string                                   { return "stub" }
+func (stubTransport) ClientFactory(string) (base.ClientFactory, error) { return nil, errors.New("unused") }
+func (stubTransport) ServerFactory(string, *pt.Args) (base.ServerFactory, error) {
+	return nil, errors.New("unused")
+}
+
+type stubFactory struct {
+	kind    string
+	release chan struct{} // closed by the script to let a held step continue
+	remote  *Conn         // far end of the "transport connection" of a relaying client handler
+}
+
+func (f *stubFactory) Transport() base.Transport { return stubTransport{} }
+func (f *stubFactory) Args() *pt.Args            { return nil }
+func (f *stubFactory) ParseArgs(*pt.Args) (interface{}, error) {
+	if f.kind == "ca" {
+		return nil, errors.New("stub: bad arguments")
+	}
+	return nil, nil
+}
+func (f *stubFactory) Dial(network, address string, dialFn base.DialFunc, args interface{}) (net.Conn, error) {
+	switch f.kind {
+	case "cd":
+		return nil, &net.OpError{Op: "dial", Net: "tcp", Err: syscall.ECONNREFUSED}
+	case "cl":
+		<-f.release
+		return nil, errors.New("stub: handshake failed late")
+	}
+	a, b := Pair(Options{})
+	f.remote = b
+	return a, nil
+}
+func (f *stubFactory) WrapConn(conn net.Conn) (net.Conn, error) {
+	switch f.kind {
+	case "sw":
+		return nil, errors.New("stub: handshake failed")
+	case "sd":
+		time.Sleep(40 * time.Second)
+		return nil, errors.New("stub: handshake failed after the delay")
+	case "sl":
+		<-f.release
+		return nil, errors.New("stub: handshake failed late")
+	}
+	return conn, nil // "so": the handshake succeeds, the ORPort is unreachable
+}
+
+// handler kinds: first letter c(lient)/s(erver); the ones listed in liveKinds
+// stay active until the script releases them.
+var handlerKinds = []string{"cs", "ca", "cd", "cr", "cl", "sw", "sd", "so", "sl"}
+var liveKinds = map[string]bool{"cr": true, "cl": true, "sl": true}
+
+func runHandlers(c *Case, r *Run, kinds []string, sigDelay time.Duration) {
+	m := newTermMonitor()
+	defer signal.Stop(m.sigChan)
+	termMon = m
+	mainDone := make(chan struct{})
+	c.Go(func() { close(mainDone) }, func() {
+		if m.wait(false) == syscall.SIGTERM {
+			return
+		}
+		m.wait(true)
+	})
+	var hwg sync.WaitGroup
+	var finished int64
+	var fmu sync.Mutex
+	var factories []*stubFactory
+	var apps []*Conn
+	live := 0
+	for _, k := range kinds {
+		k := k
+		f := &stubFactory{kind: k, release: make(chan struct{})}
+		factories = append(factories, f)
+		app, hc := Pair(Options{}) // app = the tor client / the remote peer; hc = the handler's end
+		apps = append(apps, app)
+		if liveKinds[k] {
+			live++
+		}
+		hwg.Add(1)
+		c.Go(func() {
+			fmu.Lock()
+			finished++
+			fmu.Unlock()
+			hwg.Done()
+		}, func() {
+			if k[0] == 'c' {
+				clientHandler(f, hc, (*url.URL)(nil))
+			} else {
+				serverHandler(f, hc, &pt.ServerInfo{})
+			}
+		})
+		if k[0] == 'c' {
+			// the SOCKS client
+			c.Go(nil, func() {
+				if k == "cs" {
+					app.Write([]byte("\x04not socks5"))
+					app.Close()
+					return
+				}
+				buf := make([]byte, 16)
+				app.Write([]byte{5, 1, 0})
+				if _, err := io.ReadFull(app, buf[:2]); err != nil {
+					return
+				}
+				app.Write([]byte{5, 1, 0, 1, 127, 0, 0, 1, 0, 80})
+				io.ReadFull(app, buf[:10])
+			})
+		}
+		time.Sleep(time.Millisecond)
+	}
+	time.Sleep(sigDelay)
+	sent := make(chan struct{})
+	abort := make(chan struct{})
+	go func() {
+		select {
+		case m.sigChan <- syscall.SIGINT:
+			close(sent)
+		case <-abort:
+		}
+	}()
+	synctest.Wait()
+	isDone := func(ch chan struct{}) bool {
+		select {
+		case <-ch:
+			return true
+		default:
+			return false
+		}
+	}
+	fmu.Lock()
+	fin := finished
+	fmu.Unlock()
+	active := int64(len(kinds)) - fin
+	hist := strings.Join(kinds, ",")
+	wit := map[string]any{"handlers": hist, "sigint_after": sigDelay.String(), "finished_at_first_judgement": fin}
+	r.Count("evaluations", 1)
+	r.Count("handler_histories", 1)
+	if !isDone(sent) {
+		c.Violation("handlers/shutdown-request-not-received", fmt.Sprintf("handlers %s: the monitor never received the SIGINT", hist), wit)
+	} else if active > 0 && isDone(mainDone) {
+		c.Violation("handlers/shutdown-completed-with-active-handlers", fmt.Sprintf("handlers %s, SIGINT %v after the last start: wait returned although %d handler(s) had not finished", hist, sigDelay, active), wit)
+	} else if active == 0 && !isDone(mainDone) {
+		c.Violation("handlers/shutdown-does-not-complete", fmt.Sprintf("handlers %s, SIGINT %v after the last start: every handler has finished but the graceful shutdown has not completed", hist, sigDelay), wit)
+	} else if active > 0 {
+		r.Count("handlers_shutdown_waits_for_active_handlers", 1)
+	}
+	// let everything that is still active end: delayed handshakes run out,
+	// held steps are released, relays see their peer go away
+	time.Sleep(41 * time.Second)
+	for i, f := range factories {
+		close(f.release)
+		if f.remote != nil {
+			f.remote.Close()
+		}
+		_ = i
+	}
+	synctest.Wait()
+	if isDone(sent) {
+		if !isDone(mainDone) {
+			fmu.Lock()
+			fin = finished
+			fmu.Unlock()
+			c.Violation("handlers/shutdown-does-not-complete", fmt.Sprintf("handlers %s: all %d handlers were ended (%d have returned) but the graceful shutdown has not completed", hist, len(kinds), fin), wit)
+		} else {
+			r.Count("handlers_shutdown_completed_after_last_handler", 1)
+		}
+	}
+	r.Distinct("nontrivial", fmt.Sprintf("handlers/%s/%v", hist, sigDelay))
+	// clean up
+	close(abort)
+	if !isDone(mainDone) {
+		go func() {
+			select {
+			case m.sigChan <- syscall.SIGTERM:
+			case <-mainDone:
+			}
+		}()
+	}
+	<-mainDone
+	stop := make(chan struct{})
+	drained := make(chan struct{})
+	go func() {
+		defer close(drained)
+		for {
+			m.wait(false)
+			select {
+			case <-stop:
+				return
+			default:
+			}
+		}
+	}()
+	for _, a := range apps {
+		a.Close()
+	}
+	hwg.Wait()
+	close(stop)
+	m.sigChan <- syscall.SIGTERM
+	<-drained
+}
+
 // ---------------------------------------------------------------- driver
 
 func TestCheck(t *testing.T) {
 	r := Start(t, "C19")
 	defer r.Finish()
-	r.Note("rule", "relay: all scripts up to the bound over {Aw, Bw (data, sizes 1/700/70000), Aeof, Beof, Arst, Brst, Awerr, Bwerr} (a write fault is followed by traffic towards it), the error value with which a side fails rotating through 12 kinds (connection reset, io.ErrClosedPipe, net.ErrClosed bare and wrapped, deadline exceeded, context.Canceled, plain, ...) and every kind x 14 single-failure scripts, each with distinct or PRNG (possibly equal) virtual instants, unbounded or 4 KiB sink windows, chunkings {all,1,PRNG}; termination monitor: all histories up to the bound over {handler start, finish (only while one is active), SIGINT, SIGTERM}, each with all events at distinct instants and with adjacent events merged into the same instant (every mask in the thorough tier, PRNG masks in quick); the main goroutine does what main() does: wait(false), and after a SIGINT wait(true). Non-trivial = every script/history; distinct = (script, timing, window, chunking) / (history grouping).")
+	r.SpinWatch(BytesMoved)
+	r.Note("rule", "relay: all scripts up to the bound over {Aw, Bw (data, sizes 1/700/70000), Aeof, Beof, Arst, Brst, Awerr, Bwerr} (a write fault is followed by traffic towards it), the error value with which a side fails rotating through 12 kinds (connection reset, io.ErrClosedPipe, net.ErrClosed bare and wrapped, deadline exceeded, context.Canceled, plain, ...) and every kind x 14 single-failure scripts, each with distinct or PRNG (possibly equal) virtual instants, unbounded or 4 KiB sink windows, chunkings {all,1,PRNG}; termination monitor: all histories up to the bound over {handler start, finish (only while one is active), SIGINT, SIGTERM}, each with all events at distinct instants and with adjacent events merged into the same instant (every mask in the thorough tier, PRNG masks in quick); the main goroutine does what main() does: wait(false), and after a SIGINT wait(true). connection handlers: the program's clientHandler/serverHandler against stub factories, every kind of ending (SOCKS failure, bad arguments, dial failure at once / late, relay until the peer goes, transport handshake failure at once / after 40 s / late, ORPort unreachable) alone, in every ordered pair and in PRNG histories of 3..6, SIGINT 0 s / 1 s / 50 s after the last start; judged: the shutdown completes once every started handler has finished and not before. Non-trivial = every script/history; distinct = (script, timing, window, chunking) / (history grouping).")
 
 	// relay scripts
 	maxLen := r.Pick(3, 4)
@@ -858,6 +1076,44 @@ func TestCheck(t *testing.T) {
 							}
 						}()
 						synctest.Test(c.T, func(t *testing.T) { runTermMon(c, r, g) })
+					}()
+				}
+			}
+		})
+	}
+
+	// connection handlers: every single kind, every ordered pair, and PRNG
+	// histories of 3..6 handlers, with the SIGINT at three distances from the
+	// last start
+	var hhist [][]string
+	for _, a := range handlerKinds {
+		hhist = append(hhist, []string{a})
+		for _, b := range handlerKinds {
+			hhist = append(hhist, []string{a, b})
+		}
+	}
+	hrng := NewRand(r.Sub("handlers"))
+	for i := 0; i < r.Pick(60, 1500); i++ {
+		var h []string
+		for k := 0; k < 3+hrng.IntN(4); k++ {
+			h = append(h, handlerKinds[hrng.IntN(len(handlerKinds))])
+		}
+		hhist = append(hhist, h)
+	}
+	per = 15
+	for blk := 0; blk*per < len(hhist); blk++ {
+		blk := blk
+		r.Case(fmt.Sprintf("handlers/%04d", blk), func(c *Case) {
+			for i := blk * per; i < len(hhist) && i < (blk+1)*per; i++ {
+				for _, d := range []time.Duration{0, time.Second, 50 * time.Second} {
+					h, d := hhist[i], d
+					func() {
+						defer func() {
+							if e := recover(); e != nil {
+								c.Violation("handlers/panic-or-wedge", fmt.Sprintf("%v; handlers %v", e, h), nil)
+							}
+						}()
+						synctest.Test(c.T, func(t *testing.T) { runHandlers(c, r, h, d) })
 					}()
 				}
 			}
